@@ -31,13 +31,43 @@ def optBytes (s : String) : Option (Option Bytes) :=
 def parseOpts (wd : String) : POpts :=
   { tagAll := wd == "all-tag", tagImpl := wd == "impl-tag" }
 
-def mkSchema (dsl rev wdrev : String) : Option LSchema :=
-  match (Hex.dec dsl).bind parseSchema, optBytes rev, optBytes wdrev with
-  | some (T, tys), some rev, some w => some (ofTree T tys rev (if wdrev == "none" then none else some w))
-  | _, _, _ => none
+/-- annotation table: `;`-separated `<module-hex>/<revision-hex | ->/<name-hex>/<type token>`, `-` = none -/
+def parseAnnots (s : String) : Option (List Annot) :=
+  if s == "-" then some [] else
+  (s.splitOn ";").mapM fun t =>
+    match t.splitOn "/" with
+    | [m, r, n, ty] =>
+      match Hex.dec m, optBytes r, Hex.dec n, parseLTy ty with
+      | some m, some r, some n, some ty => some { modName := m, rev := r, name := n, ty := ty }
+      | _, _, _, _ => none
+    | _ => none
+
+def mkSchema (dsl rev wdrev : String) (annots : String := "-") : Option LSchema :=
+  match (Hex.dec dsl).bind parseSchema, optBytes rev, optBytes wdrev, parseAnnots annots with
+  | some (T, tys), some rev, some w, some an => some (ofTree T tys rev (if wdrev == "none" then none else some w) an)
+  | _, _, _, _ => none
 
 def handle (op : String) (args : List String) : Option String :=
   match op, args with
+  | "tprint", [dsl, rev, wdrev, annots, wd, dump] =>
+    some <|
+    match (Hex.dec dsl).bind parseSchema, mkSchema dsl rev wdrev annots with
+    | some (T, _), some S =>
+      match forestOfHex T dump with
+      | none => "err BadTree"
+      | some t =>
+        match printLyb Params.gen (parseOpts wd) S t with
+        | none => "err Eint"
+        | some img => "ok " ++ Hex.enc img
+    | _, _ => "err BadSchema"
+  | "tparse", [dsl, rev, wdrev, annots, img] =>
+    some <|
+    match mkSchema dsl rev wdrev annots, Hex.dec img with
+    | some S, some img =>
+      match parseLyb Params.gen S img with
+      | none => "err Parse"
+      | some t => "ok " ++ dumpTok t
+    | _, _ => "err BadArg"
   | "tprint", [dsl, rev, wdrev, wd, dump] =>
     some <|
     match (Hex.dec dsl).bind parseSchema, mkSchema dsl rev wdrev with
